@@ -818,3 +818,29 @@ Theorem order_independent : forall m1 m2,
   (forall st1 st2, load dep_ans m1 = Ok st1 -> load dep_ans m2 = Ok st2 ->
      forall x, In x (concat m1) -> tgt st1 (xid x) = tgt st2 (xid x)).
 Proof. exact (monotone_order_independent dep_ready dep_ready_mono). Qed.
+
+(* ================================================================ providers that ask the resolver (snapshot view):
+   termination for every such provider *)
+Lemma qround_counts ans : forall models st settled st' pends dels c s',
+  qround ans models st settled = Some (st', pends, dels, c, s') -> total pends + c = total models /\ dels = pends.
+Proof.
+  induction models as [|m ms IH]; intros st settled st' pends dels c s' H; cbn [qround] in H.
+  - inversion H; subst. split; reflexivity.
+  - destruct (step (ans settled) m st) as [[[[st1 np] d] c1]|] eqn:E1; [|discriminate].
+    destruct (qround ans ms st1 _) as [[[[[st2 nps] ds] c2] s2]|] eqn:E2; [|discriminate]. inversion H; subst.
+    destruct (retry_in_order _ _ _ _ _ _ _ E1) as [Hnp [_ L]]. subst d.
+    destruct (IH _ _ _ _ _ _ _ E2) as [L2 Hds]. subst ds.
+    unfold total in *. cbn [concat]. rewrite !app_length. split; [lia | reflexivity].
+Qed.
+
+Lemma qloop_fuel ans : forall fuel models st settled, total models < fuel -> qloop fuel ans models st settled <> OutOfFuel.
+Proof.
+  induction fuel as [|f IH]; intros models st settled Hf; [lia|]. cbn [qloop].
+  destruct (qround ans models st settled) as [[[[[st' pends] dels] c] s']|] eqn:E; [|discriminate].
+  destruct (qround_counts _ _ _ _ _ _ _ _ _ E) as [Hc Hd]. subst dels. rewrite cond_eq, err_eq.
+  destruct (Nat.ltb 0 (total pends)) eqn:E1; destruct (Nat.ltb 0 c) eqn:E2; cbn [andb]; try discriminate.
+  apply IH. apply Nat.ltb_lt in E2. lia.
+Qed.
+
+Theorem qload_terminates ans models : qload ans models <> OutOfFuel.
+Proof. unfold qload. apply qloop_fuel. lia. Qed.
